@@ -54,6 +54,9 @@ def run(tier):
                               cfg={'url': url, 'path': path},
                               scripts=K.random_scripts(seed + 3, 12 if th else 6, 12, None, w_io)))
     K.conform(ck, plans)
+    # the threaded client on polling at one primitive per step: PONG per PING, accepted packets in
+    # send order at most once, under every thread schedule (EioClientFinePoll)
+    K.l2_client_poll(ck, th, seed, lifecycle=False)
     ck.cov['rule'] = ('case = one scripted-server conversation on one client implementation (and URL '
                       'form); distinct by recorded action sequence')
     ck.assume('URL facts (scheme mapping, endpoint path, EIO=4, transport, caller query kept, sid '
